@@ -1,0 +1,426 @@
+//go:build verif
+// +build verif
+
+package sarama
+
+// Contracts for the govc verifier (/verif). This file contains comments only: with or
+// without the `verif` build tag it adds no code to the package.
+//
+// Syntax: Gobra-style `//@` lines. `func (recv T) name(params)` opens a contract; clauses are
+// `requires`, `ensures[label]`, `modifies`, `returns` (names for unnamed results),
+// `loop K: invariant ...` (K = pre-order ordinal of the loop in the function), `refines`.
+
+// ---------------------------------------------------------------------------------------------
+// partitioner.go (C17)
+
+//@ func (p *hashPartitioner) Partition(message, numPartitions) props C17
+//@   returns r, err
+//@   requires numPartitions >= 1
+//@   ensures[in_range] message.Key != nil && err == nil ==> 0 <= r && r < numPartitions
+
+//@ func (p *roundRobinPartitioner) Partition(message, numPartitions) props C17
+//@   returns r, err
+//@   requires numPartitions >= 1 && p.partition >= 0
+//@   ensures[in_range] 0 <= r && r < numPartitions && err == nil
+//@   ensures[cursor] r == ite(old(p.partition) >= numPartitions, 0, old(p.partition)) && p.partition == r + 1
+//@   modifies p.partition
+
+//@ func (p *manualPartitioner) Partition(message, numPartitions) props C17
+//@   returns r, err
+//@   ensures[own] r == message.Partition && err == nil
+//@   modifies nothing
+
+// ---------------------------------------------------------------------------------------------
+// packet_decoder.go: interface contracts used by every decode method (C10 sweep, C09)
+//
+// Abstract state of a packetDecoder: pd.remaining() (bytes left). Every getter keeps it >= 0, never
+// increases it, and returns lengths that are >= 0 and bounded by what is left.
+
+//@ func (pd packetDecoder) remaining() pure
+
+//@ func (pd packetDecoder) getInt8() props C10
+//@   returns v, err
+//@   requires pd.remaining() >= 0
+//@   ensures[state] 0 <= pd.remaining() && pd.remaining() <= old(pd.remaining())
+//@   ensures[adv] err == nil ==> pd.remaining() == old(pd.remaining()) - 1
+//@   modifies pd.*
+
+//@ func (pd packetDecoder) getInt16() props C10
+//@   returns v, err
+//@   requires pd.remaining() >= 0
+//@   ensures[state] 0 <= pd.remaining() && pd.remaining() <= old(pd.remaining())
+//@   ensures[adv] err == nil ==> pd.remaining() == old(pd.remaining()) - 2
+//@   modifies pd.*
+
+//@ func (pd packetDecoder) getInt32() props C10
+//@   returns v, err
+//@   requires pd.remaining() >= 0
+//@   ensures[state] 0 <= pd.remaining() && pd.remaining() <= old(pd.remaining())
+//@   ensures[adv] err == nil ==> pd.remaining() == old(pd.remaining()) - 4
+//@   modifies pd.*
+
+//@ func (pd packetDecoder) getInt64() props C10
+//@   returns v, err
+//@   requires pd.remaining() >= 0
+//@   ensures[state] 0 <= pd.remaining() && pd.remaining() <= old(pd.remaining())
+//@   ensures[adv] err == nil ==> pd.remaining() == old(pd.remaining()) - 8
+//@   modifies pd.*
+
+//@ func (pd packetDecoder) getVarint() props C10
+//@   returns v, err
+//@   requires pd.remaining() >= 0
+//@   ensures[state] 0 <= pd.remaining() && pd.remaining() <= old(pd.remaining())
+//@   ensures[adv] err == nil ==> pd.remaining() < old(pd.remaining()) && pd.remaining() >= old(pd.remaining()) - 10
+//@   modifies pd.*
+
+//@ func (pd packetDecoder) getUVarint() props C10
+//@   returns v, err
+//@   requires pd.remaining() >= 0
+//@   ensures[state] 0 <= pd.remaining() && pd.remaining() <= old(pd.remaining())
+//@   ensures[adv] err == nil ==> pd.remaining() < old(pd.remaining()) && pd.remaining() >= old(pd.remaining()) - 10
+//@   modifies pd.*
+
+//@ func (pd packetDecoder) getArrayLength() props C10
+//@   returns n, err
+//@   requires pd.remaining() >= 0
+//@   ensures[state] 0 <= pd.remaining() && pd.remaining() <= old(pd.remaining())
+//@   ensures[len] err == nil ==> 0 <= n && n <= pd.remaining() && n <= 131070
+//@   ensures[adv] err == nil ==> pd.remaining() == old(pd.remaining()) - 4
+//@   modifies pd.*
+
+//@ func (pd packetDecoder) getCompactArrayLength() props C10
+//@   returns n, err
+//@   requires pd.remaining() >= 0
+//@   ensures[state] 0 <= pd.remaining() && pd.remaining() <= old(pd.remaining())
+//@   ensures[len] err == nil ==> 0 <= n && n <= pd.remaining()
+//@   modifies pd.*
+
+//@ func (pd packetDecoder) getBool() props C10
+//@   returns v, err
+//@   requires pd.remaining() >= 0
+//@   ensures[state] 0 <= pd.remaining() && pd.remaining() <= old(pd.remaining())
+//@   modifies pd.*
+
+//@ func (pd packetDecoder) getEmptyTaggedFieldArray() props C10
+//@   returns n, err
+//@   requires pd.remaining() >= 0
+//@   ensures[state] 0 <= pd.remaining() && pd.remaining() <= old(pd.remaining())
+//@   ensures[zero] n == 0
+//@   modifies pd.*
+
+//@ func (pd packetDecoder) getBytes() props C10
+//@   returns b, err
+//@   requires pd.remaining() >= 0
+//@   ensures[state] 0 <= pd.remaining() && pd.remaining() <= old(pd.remaining())
+//@   ensures[len] err == nil ==> len(b) <= old(pd.remaining()) - 4 && pd.remaining() == old(pd.remaining()) - 4 - len(b)
+//@   modifies pd.*
+
+//@ func (pd packetDecoder) getVarintBytes() props C10
+//@   returns b, err
+//@   requires pd.remaining() >= 0
+//@   ensures[state] 0 <= pd.remaining() && pd.remaining() <= old(pd.remaining())
+//@   ensures[len] err == nil ==> len(b) < old(pd.remaining())
+//@   modifies pd.*
+
+//@ func (pd packetDecoder) getCompactBytes() props C10
+//@   returns b, err
+//@   requires pd.remaining() >= 0
+//@   ensures[state] 0 <= pd.remaining() && pd.remaining() <= old(pd.remaining())
+//@   ensures[len] err == nil ==> len(b) < old(pd.remaining())
+//@   modifies pd.*
+
+//@ func (pd packetDecoder) getRawBytes(length) props C10
+//@   returns b, err
+//@   requires pd.remaining() >= 0
+//@   ensures[state] 0 <= pd.remaining() && pd.remaining() <= old(pd.remaining())
+//@   ensures[len] err == nil ==> len(b) == length && 0 <= length && pd.remaining() == old(pd.remaining()) - length
+//@   modifies pd.*
+
+//@ func (pd packetDecoder) getString() props C10
+//@   returns s, err
+//@   requires pd.remaining() >= 0
+//@   ensures[state] 0 <= pd.remaining() && pd.remaining() <= old(pd.remaining())
+//@   ensures[len] err == nil ==> len(s) <= old(pd.remaining()) - 2
+//@   modifies pd.*
+
+//@ func (pd packetDecoder) getNullableString() props C10
+//@   returns s, err
+//@   requires pd.remaining() >= 0
+//@   ensures[state] 0 <= pd.remaining() && pd.remaining() <= old(pd.remaining())
+//@   modifies pd.*
+
+//@ func (pd packetDecoder) getCompactString() props C10
+//@   returns s, err
+//@   requires pd.remaining() >= 0
+//@   ensures[state] 0 <= pd.remaining() && pd.remaining() <= old(pd.remaining())
+//@   ensures[len] err == nil ==> len(s) < old(pd.remaining())
+//@   modifies pd.*
+
+//@ func (pd packetDecoder) getCompactNullableString() props C10
+//@   returns s, err
+//@   requires pd.remaining() >= 0
+//@   ensures[state] 0 <= pd.remaining() && pd.remaining() <= old(pd.remaining())
+//@   modifies pd.*
+
+//@ func (pd packetDecoder) getCompactInt32Array() props C10
+//@   returns a, err
+//@   requires pd.remaining() >= 0
+//@   ensures[state] 0 <= pd.remaining() && pd.remaining() <= old(pd.remaining())
+//@   ensures[len] err == nil ==> 4*len(a) < old(pd.remaining()) || len(a) == 0
+//@   modifies pd.*
+
+//@ func (pd packetDecoder) getInt32Array() props C10
+//@   returns a, err
+//@   requires pd.remaining() >= 0
+//@   ensures[state] 0 <= pd.remaining() && pd.remaining() <= old(pd.remaining())
+//@   ensures[len] err == nil ==> 4*len(a) <= old(pd.remaining()) - 4
+//@   modifies pd.*
+
+//@ func (pd packetDecoder) getInt64Array() props C10
+//@   returns a, err
+//@   requires pd.remaining() >= 0
+//@   ensures[state] 0 <= pd.remaining() && pd.remaining() <= old(pd.remaining())
+//@   ensures[len] err == nil ==> 8*len(a) <= old(pd.remaining()) - 4
+//@   modifies pd.*
+
+//@ func (pd packetDecoder) getStringArray() props C10
+//@   returns a, err
+//@   requires pd.remaining() >= 0
+//@   ensures[state] 0 <= pd.remaining() && pd.remaining() <= old(pd.remaining())
+//@   ensures[len] err == nil ==> 2*len(a) <= old(pd.remaining()) - 4
+//@   modifies pd.*
+
+//@ func (pd packetDecoder) getSubset(length) props C10
+//@   returns sub, err
+//@   requires pd.remaining() >= 0
+//@   ensures[state] 0 <= pd.remaining() && pd.remaining() <= old(pd.remaining())
+//@   ensures[sub] err == nil ==> sub != nil && sub.remaining() == length && 0 <= length && pd.remaining() == old(pd.remaining()) - length
+//@   modifies pd.*
+
+//@ func (pd packetDecoder) peek(offset, length) props C10
+//@   returns sub, err
+//@   requires pd.remaining() >= 0 && 0 <= offset && offset <= 4294967296 && 0 <= length && length <= 4294967296
+//@   ensures[state] pd.remaining() == old(pd.remaining())
+//@   ensures[sub] err == nil ==> sub != nil && sub.remaining() == length && offset + length <= pd.remaining()
+//@   modifies nothing
+
+//@ func (pd packetDecoder) peekInt8(offset) props C10
+//@   returns v, err
+//@   requires pd.remaining() >= 0 && 0 <= offset && offset <= 4294967296
+//@   ensures[state] pd.remaining() == old(pd.remaining())
+//@   modifies nothing
+
+//@ func (pd packetDecoder) push(in) props C10
+//@   returns err
+//@   requires pd.remaining() >= 0
+//@   ensures[state] 0 <= pd.remaining() && pd.remaining() <= old(pd.remaining())
+//@   modifies pd.*, in.*
+
+//@ func (pd packetDecoder) pop() props C10
+//@   returns err
+//@   requires pd.remaining() >= 0
+//@   ensures[state] pd.remaining() == old(pd.remaining())
+//@   modifies pd.*
+
+// ---------------------------------------------------------------------------------------------
+// real_decoder.go: the implementation refines the interface contracts (C10) and pins the values (C09)
+//
+// Object invariant of realDecoder: valid() := 0 <= off <= len(raw). Established where a realDecoder
+// is constructed (off = 0) and preserved by every method; raw/off are written only in real_decoder.go.
+
+//@ func (rd *realDecoder) remaining() pure
+//@ func (rd *realDecoder) valid() pure
+//@   define 0 <= rd.off && rd.off <= len(rd.raw)
+
+//@ func (rd *realDecoder) getInt8() props C10 C09
+//@   refines packetDecoder.getInt8
+//@   requires rd.valid()
+//@   ensures[valid] rd.valid() && len(rd.raw) == old(len(rd.raw))
+//@   ensures[value] err == nil ==> v == wrap8(arr(rd.raw)[off(rd.raw) + old(rd.off)])
+//@   ensures[fail] err != nil ==> rd.off == len(rd.raw)
+//@   modifies rd.off
+
+//@ func (rd *realDecoder) getInt16() props C10 C09
+//@   refines packetDecoder.getInt16
+//@   requires rd.valid()
+//@   ensures[valid] rd.valid() && len(rd.raw) == old(len(rd.raw))
+//@   ensures[value] err == nil ==> v == wrap16(be16(arr(rd.raw), off(rd.raw) + old(rd.off)))
+//@   ensures[fail] err != nil ==> rd.off == len(rd.raw)
+//@   modifies rd.off
+
+//@ func (rd *realDecoder) getInt32() props C10 C09
+//@   refines packetDecoder.getInt32
+//@   requires rd.valid()
+//@   ensures[valid] rd.valid() && len(rd.raw) == old(len(rd.raw))
+//@   ensures[value] err == nil ==> v == wrap32(be32(arr(rd.raw), off(rd.raw) + old(rd.off)))
+//@   ensures[fail] err != nil ==> rd.off == len(rd.raw)
+//@   modifies rd.off
+
+//@ func (rd *realDecoder) getInt64() props C10 C09
+//@   refines packetDecoder.getInt64
+//@   requires rd.valid()
+//@   ensures[valid] rd.valid() && len(rd.raw) == old(len(rd.raw))
+//@   ensures[value] err == nil ==> v == wrap64(be64(arr(rd.raw), off(rd.raw) + old(rd.off)))
+//@   ensures[fail] err != nil ==> rd.off == len(rd.raw)
+//@   modifies rd.off
+
+//@ func (rd *realDecoder) getVarint() props C10 C09
+//@   refines packetDecoder.getVarint
+//@   requires rd.valid()
+//@   ensures[valid] rd.valid() && len(rd.raw) == old(len(rd.raw))
+//@   ensures[size] err == nil ==> sz_varint(v) <= rd.off - old(rd.off)
+//@   modifies rd.off
+
+//@ func (rd *realDecoder) getUVarint() props C10 C09
+//@   refines packetDecoder.getUVarint
+//@   requires rd.valid()
+//@   ensures[valid] rd.valid() && len(rd.raw) == old(len(rd.raw))
+//@   ensures[size] err == nil ==> sz_uvarint(v) <= rd.off - old(rd.off)
+//@   modifies rd.off
+
+//@ func (rd *realDecoder) getArrayLength() props C10 C09
+//@   refines packetDecoder.getArrayLength
+//@   requires rd.valid()
+//@   ensures[valid] rd.valid() && len(rd.raw) == old(len(rd.raw))
+//@   ensures[fail] err != nil ==> n == -1
+//@   modifies rd.off
+
+//@ func (rd *realDecoder) getCompactArrayLength() props C10 C09
+//@   refines packetDecoder.getCompactArrayLength
+//@   requires rd.valid()
+//@   ensures[valid] rd.valid() && len(rd.raw) == old(len(rd.raw))
+//@   modifies rd.off
+
+//@ func (rd *realDecoder) getBool() props C10 C09
+//@   refines packetDecoder.getBool
+//@   requires rd.valid()
+//@   ensures[valid] rd.valid() && len(rd.raw) == old(len(rd.raw))
+//@   ensures[value] err == nil ==> (v == (arr(rd.raw)[off(rd.raw) + old(rd.off)] == 1))
+//@   modifies rd.off
+
+//@ func (rd *realDecoder) getEmptyTaggedFieldArray() props C10 C09
+//@   refines packetDecoder.getEmptyTaggedFieldArray
+//@   requires rd.valid()
+//@   ensures[valid] rd.valid() && len(rd.raw) == old(len(rd.raw))
+//@   modifies rd.off
+
+//@ func (rd *realDecoder) getRawBytes(length) props C10 C09
+//@   refines packetDecoder.getRawBytes
+//@   requires rd.valid()
+//@   ensures[valid] rd.valid() && len(rd.raw) == old(len(rd.raw))
+//@   ensures[value] err == nil ==> rd.off == old(rd.off) + length && arr(b) == arr(rd.raw) && off(b) == off(rd.raw) + old(rd.off)
+//@   ensures[neg] length < 0 ==> err != nil && rd.off == old(rd.off)
+//@   modifies rd.off
+
+//@ func (rd *realDecoder) getBytes() props C10 C09
+//@   refines packetDecoder.getBytes
+//@   requires rd.valid()
+//@   ensures[valid] rd.valid() && len(rd.raw) == old(len(rd.raw))
+//@   modifies rd.off
+
+//@ func (rd *realDecoder) getVarintBytes() props C10 C09
+//@   refines packetDecoder.getVarintBytes
+//@   requires rd.valid()
+//@   ensures[valid] rd.valid() && len(rd.raw) == old(len(rd.raw))
+//@   modifies rd.off
+
+//@ func (rd *realDecoder) getCompactBytes() props C10 C09
+//@   refines packetDecoder.getCompactBytes
+//@   requires rd.valid()
+//@   ensures[valid] rd.valid() && len(rd.raw) == old(len(rd.raw))
+//@   modifies rd.off
+
+//@ func (rd *realDecoder) getStringLength() props C10 C09
+//@   returns n, err
+//@   requires rd.valid()
+//@   ensures[valid] rd.valid() && len(rd.raw) == old(len(rd.raw))
+//@   ensures[len] err == nil ==> -1 <= n && n <= rd.remaining() && rd.off == old(rd.off) + 2
+//@   ensures[mono] rd.off >= old(rd.off)
+//@   modifies rd.off
+
+//@ func (rd *realDecoder) getString() props C10 C09
+//@   refines packetDecoder.getString
+//@   requires rd.valid()
+//@   ensures[valid] rd.valid() && len(rd.raw) == old(len(rd.raw))
+//@   modifies rd.off
+
+//@ func (rd *realDecoder) getNullableString() props C10 C09
+//@   refines packetDecoder.getNullableString
+//@   requires rd.valid()
+//@   ensures[valid] rd.valid() && len(rd.raw) == old(len(rd.raw))
+//@   modifies rd.off
+
+//@ func (rd *realDecoder) getCompactString() props C10 C09
+//@   refines packetDecoder.getCompactString
+//@   requires rd.valid()
+//@   ensures[valid] rd.valid() && len(rd.raw) == old(len(rd.raw))
+//@   modifies rd.off
+
+//@ func (rd *realDecoder) getCompactNullableString() props C10 C09
+//@   refines packetDecoder.getCompactNullableString
+//@   requires rd.valid()
+//@   ensures[valid] rd.valid() && len(rd.raw) == old(len(rd.raw))
+//@   modifies rd.off
+
+//@ func (rd *realDecoder) getCompactInt32Array() props C10 C09
+//@   refines packetDecoder.getCompactInt32Array
+//@   requires rd.valid()
+//@   ensures[valid] rd.valid() && len(rd.raw) == old(len(rd.raw))
+//@   loop 0: invariant rd.valid() && len(rd.raw) == old(len(rd.raw)) && rd.off >= old(rd.off) && rd.off + 4*($n - $i) <= len(rd.raw)
+//@   modifies rd.off
+
+//@ func (rd *realDecoder) getInt32Array() props C10 C09
+//@   refines packetDecoder.getInt32Array
+//@   requires rd.valid()
+//@   ensures[valid] rd.valid() && len(rd.raw) == old(len(rd.raw))
+//@   loop 0: invariant rd.valid() && len(rd.raw) == old(len(rd.raw)) && rd.off >= old(rd.off) && rd.off + 4*($n - $i) <= len(rd.raw)
+//@   modifies rd.off
+
+//@ func (rd *realDecoder) getInt64Array() props C10 C09
+//@   refines packetDecoder.getInt64Array
+//@   requires rd.valid()
+//@   ensures[valid] rd.valid() && len(rd.raw) == old(len(rd.raw))
+//@   loop 0: invariant rd.valid() && len(rd.raw) == old(len(rd.raw)) && rd.off >= old(rd.off) && rd.off + 8*($n - $i) <= len(rd.raw)
+//@   modifies rd.off
+
+//@ func (rd *realDecoder) getStringArray() props C10 C09
+//@   refines packetDecoder.getStringArray
+//@   requires rd.valid()
+//@   ensures[valid] rd.valid() && len(rd.raw) == old(len(rd.raw))
+//@   loop 0: invariant rd.valid() && len(rd.raw) == old(len(rd.raw)) && rd.off >= old(rd.off) && rd.off + 2*($n - $i) <= len(rd.raw)
+//@   modifies rd.off
+
+//@ func (rd *realDecoder) getSubset(length) props C10 C09
+//@   refines packetDecoder.getSubset
+//@   requires rd.valid()
+//@   ensures[valid] rd.valid() && len(rd.raw) == old(len(rd.raw))
+//@   modifies rd.off
+
+//@ func (rd *realDecoder) peek(offset, length) props C10 C09
+//@   refines packetDecoder.peek
+//@   requires rd.valid()
+//@   ensures[valid] rd.valid() && len(rd.raw) == old(len(rd.raw)) && rd.off == old(rd.off)
+
+//@ func (rd *realDecoder) peekInt8(offset) props C10 C09
+//@   refines packetDecoder.peekInt8
+//@   requires rd.valid()
+//@   ensures[valid] rd.valid() && len(rd.raw) == old(len(rd.raw)) && rd.off == old(rd.off)
+
+// ---------------------------------------------------------------------------------------------
+// push-field pools: sync.Pool only ever holds what release* put there (trusted type discipline)
+
+//@ func acquireCrc32Field(polynomial) trusted
+//@   returns c
+//@   ensures c != nil && c.polynomial == polynomial
+//@   modifies nothing
+
+//@ func acquireLengthField() trusted
+//@   returns f
+//@   ensures f != nil
+//@   modifies nothing
+
+//@ func releaseCrc32Field(c) trusted
+//@   modifies nothing
+
+//@ func releaseLengthField(m) trusted
+//@   modifies nothing
